@@ -41,4 +41,26 @@ theorem ef_csr_loops_are_code (c : EFConst α) (df sp : α) :
     Gen.efCSRLoops c.nmax = [c.nmax] ∧ Gen.efCSRCount c.n = c.n ∧ Gen.efPowerTerm df sp = df * sp := ⟨rfl, rfl, rfl⟩
 
 
+/-- buffer plumbing of the two transforms: the forward transform reads the padded profile and writes the form factor,
+    the backward transform reads the loss spectrum and writes the padded wake; all four buffers have the transform
+    length (the model's `efWake`: pad → r2c → losses on `[0, nmax/2)` → c2r → scale) -/
+theorem ef_transforms_are_code :
+    Gen.efTransforms = [("_fft_bunchprofile", "_nmax", "_bp_padded", "_formfactor"),
+                        ("_fft_wakelosses", "_nmax", "_wakelosses", "_wakepotential_padded")]
+    ∧ Gen.efBuffers = [("_bp_padded_fft", "real", "_nmax"), ("_formfactor_fft", "complex", "_nmax"),
+                       ("_wakelosses_fft", "complex", "_nmax"), ("_wakepotential_padded", "real", "_nmax")] := ⟨rfl, rfl⟩
+
+/-- `wakePotential()` pads the CURRENT profiles first, transforms forward, multiplies, transforms backward, scales -/
+theorem ef_wake_sequence_is_code :
+    Gen.efWakeSequence = ["padBunchProfiles", "execute", "losses", "execute", "scale", "return"]
+    ∧ Gen.efWakeExecutes = ["_fft_bunchprofile", "_fft_wakelosses"] := ⟨rfl, rfl⟩
+
+/-- `updateCSR()` clears the shared buffer and copies the bunch's profile before every transform (history
+    independence, C18), and starts the power of every bunch at zero -/
+theorem ef_csr_sequence_is_code :
+    Gen.efCSRSequence = ["bunch-loop", "clear", "copy", "execute", "zero-power", "spectrum-loop", "return"] := rfl
+
+/-- `padBunchProfiles()` clears the whole buffer before it copies the bunches -/
+theorem ef_pad_sequence_is_code : Gen.efPadSequence = ["clear", "bunch-loop", "copy"] := rfl
+
 end Inovesa.Props.TieEF
